@@ -20,6 +20,7 @@
 //   regress  fixed deterministic witnesses of both parts, bench self-checks (reference matcher vs muscle's StringMatcher,
 //            slow client builds a server-side queue, CutAfter), oracle self-tests.
 #include "reflectbench.h"
+#include "regex/QueryFilter.h"
 #include "vh.h"
 #include <functional>
 #include <algorithm>
@@ -31,6 +32,30 @@ static uint32_t R(uint32_t n) { return g.R(n); }
 enum { STREAM_ISOLATE = 601, STREAM_CUTGEN = 602, STREAM_CUTCASE = 603 };
 
 static MessageRef Payload(uint32 what, const char * field, int32 v) { MessageRef m = GetMessageFromPool(what); if (m() == NULL || m()->AddInt32(field, v).IsError()) Abort("cannot build a payload Message"); return m; }
+// content filters on subscriptions.  Marks are placed and removed BY PATH ONLY (filters decide what is reported, not what is marked),
+// so the subscriber-table oracle ignores them; they are here because teardown code that consults the filter leaves marks behind.
+struct FilterSpec { int kind; int32 iv; std::string sv; FilterSpec() : kind(0), iv(0) {} };    // 0 none | 1 int32 <f> == iv | 2 string s == sv | 3 int32 <f> >= iv
+static FilterSpec RandomFilter() { FilterSpec f; f.kind = 1 + (int)R(3); f.iv = (f.kind == 3) ? 1 + (int32)R(4) : (int32)R(5); f.sv = R(2) ? "x" : "y"; return f; }
+static std::string ShowFilter(const FilterSpec & f, const char * intField) { return f.kind == 0 ? "" : f.kind == 2 ? "[s==" + f.sv + "]" : vh::fmt("[%s%s%d]", intField, f.kind == 1 ? "==" : ">=", f.iv); }
+static void PutSub(Message & sp, const std::string & pat, const FilterSpec & f, const char * intField)
+{
+   const std::string name = "SUBSCRIBE:" + pat;
+   if (f.kind == 0) { if (sp.AddBool(name.c_str(), true).IsError()) Abort("AddBool failed"); return; }
+   MessageRef fm = GetMessageFromPool(); status_t r;
+   if (f.kind == 2) { StringQueryFilter q("s", StringQueryFilter::OP_EQUAL_TO, f.sv.c_str()); r = q.SaveToArchive(*fm()); }
+   else { Int32QueryFilter q(intField, (uint8)(f.kind == 1 ? Int32QueryFilter::OP_EQUAL_TO : Int32QueryFilter::OP_GREATER_THAN_OR_EQUAL_TO), f.iv); r = q.SaveToArchive(*fm()); }
+   if (r.IsError() || sp.AddMessage(name.c_str(), fm).IsError()) Abort("cannot archive a query filter into a SUBSCRIBE: field");
+}
+static bool FilterPasses(const FilterSpec & f, const std::string & payloadBytes, const char * intField)
+{
+   if (f.kind == 0) return true;
+   Message m; if (payloadBytes.empty() || m.UnflattenFromBytes((const uint8 *)payloadBytes.data(), (uint32)payloadBytes.size()).IsError()) return false;
+   if (f.kind == 2) { const String * v; return m.FindString("s", &v).IsOK() && f.sv == v->Cstr(); }
+   int32 v; if (m.FindInt32(intField, v).IsError()) return false;
+   return f.kind == 1 ? (v == f.iv) : (v >= f.iv);
+}
+// witness / victim payload: int32 <field> = v and string s = x|y
+static MessageRef Payload2(uint32 what, const char * field, int32 v) { MessageRef m = Payload(what, field, v); if (m()->AddString("s", (v & 1) ? "x" : "y").IsError()) Abort("AddString failed"); return m; }
 static std::string Tail(const std::vector<std::string> & log, size_t n) { std::string s; for (size_t i = (log.size() > n ? log.size() - n : 0); i < log.size(); i++) { s += log[i]; s += " ; "; } return s; }
 static std::string Join(const std::vector<std::string> & v, const char * sep, size_t maxItems = 12) { std::string s; for (size_t i = 0; i < v.size() && i < maxItems; i++) { if (i) s += sep; s += v[i]; } if (v.size() > maxItems) s += vh::fmt("%s...(%zu more)", sep, v.size() - maxItems); return s; }
 // pick n patterns from a pool such that no two have the same canonical form (SUBSCRIBE:a == SUBSCRIBE:/*/*/a)
@@ -87,13 +112,14 @@ struct IsoWorld {
       for (int i = 0; i < 2; i++) {
          Client * v = vs[i];
          MessageRef sd = GetMessageFromPool(PR_COMMAND_SETDATA); const char * ps[] = {"a", "a/x", "b", "idx"};
-         for (int j = 0; j < 4; j++) (void)sd()->AddMessage(ps[j], Payload(7, "v", (int32)R(100)));
-         static const char * const extra[] = {"c", "a/y", "b/z/w"}; for (int j = 0; j < 3; j++) if (R(3) == 0) (void)sd()->AddMessage(extra[j], Payload(7, "v", (int32)R(100)));
+         for (int j = 0; j < 4; j++) (void)sd()->AddMessage(ps[j], Payload2(7, "v", (int32)R(100)));
+         static const char * const extra[] = {"c", "a/y", "b/z/w"}; for (int j = 0; j < 3; j++) if (R(3) == 0) (void)sd()->AddMessage(extra[j], Payload2(7, "v", (int32)R(100)));
          v->Send(sd);
          MessageRef io = GetMessageFromPool(PR_COMMAND_INSERTORDEREDDATA); (void)io()->AddString(PR_NAME_KEYS, "idx"); for (int j = 0; j < 3; j++) (void)io()->AddMessage("", Payload(8, "i", j)); v->Send(io);
          std::vector<std::string> s = (i == 0 && R(2)) ? std::vector<std::string>() : PickSubs(subPool, sizeof(subPool) / sizeof(subPool[0]), 1 + R(3));
          if (i == 0 && s.empty()) { s.push_back("/*/*/a"); s.push_back("b"); }      // the prototype's pair
-         MessageRef sp = GetMessageFromPool(PR_COMMAND_SETPARAMETERS); for (size_t j = 0; j < s.size(); j++) (void)sp()->AddBool(("SUBSCRIBE:" + s[j]).c_str(), true);
+         MessageRef sp = GetMessageFromPool(PR_COMMAND_SETPARAMETERS);
+         for (size_t j = 0; j < s.size(); j++) { FilterSpec f; if (R(3) == 0) { f = RandomFilter(); f.iv = (int32)R(100); vh::stat("victim_filtered_subscriptions"); } PutSub(*sp(), s[j], f, "v"); }   // filters never change what is marked
          (void)sp()->AddInt32("myparam", 42); if (R(2)) (void)sp()->AddBool(PR_NAME_SUBSCRIBE_QUIETLY, true);
          v->Send(sp); subs[v->id] = s;
       }
@@ -212,8 +238,9 @@ struct WitnessSpec { std::vector<std::string> subs; bool reflect; int maxItems; 
 struct StreamSpec {
    long index; std::vector<MessageRef> msgs; std::string bytes; std::vector<size_t> starts;     // starts: frame offsets + total length
    std::vector<std::vector<std::string> > subsAfter;                                          // the leaver's subscriptions after n complete frames
-   std::vector<WitnessSpec> wit; std::string desc;
-   StreamSpec() : index(-1) {}
+   std::vector<std::map<std::string, FilterSpec> > filtAfter;                                 // ... and which of them carry a content filter
+   std::vector<WitnessSpec> wit; std::string desc; size_t ioFrame;                              // ioFrame: which frame is the INSERTORDEREDDATA
+   StreamSpec() : index(-1), ioFrame(1) {}
 };
 static const char * const kLeaverSubs[] = {"/*/*/*", "b", "/*/*", "a/*", "(a|b)", "mine,b", "*/x", "idx/*", "/*/*/*/*", "*", "/*", "mine", "/*/*/(mine|idx)"};
 static const char * const kWitnessSubs[] = {"/*/*/*", "/*/*/*/*", "/*/*", "a", "b", "(a|b)", "a,idx", "idx/*", "*/x", "/*", "*", "/*/*/a/*", "c,b"};
@@ -225,40 +252,48 @@ static void GenStream(uint64_t seed, long s, StreamSpec & S)
    S = StreamSpec(); S.index = s;
    const int nw = 1 + (int)R(2);
    for (int i = 0; i < nw; i++) { WitnessSpec w; w.subs = PickSubs(kWitnessSubs, NEL(kWitnessSubs), 2 + R(2)); w.reflect = (R(4) == 0); w.maxItems = (R(4) == 0) ? 1 + (int)R(3) : 0; w.nodeA = R(2); w.nodeB = R(4) != 0; w.nodeAX = R(2); w.idx = R(2); S.wit.push_back(w); }
-   std::vector<std::string> cur; std::vector<std::string> d;
+   std::vector<std::string> cur; std::vector<std::string> d; std::map<std::string, FilterSpec> curF;
    // frame 0: four nodes
    { MessageRef sd = GetMessageFromPool(PR_COMMAND_SETDATA); const char * ps[] = {"a", "a/x", "b", "idx"}; for (int j = 0; j < 4; j++) (void)sd()->AddMessage(ps[j], Payload(7, "v", (int32)R(100))); S.msgs.push_back(sd); d.push_back("SETDATA a a/x b idx"); }
    // frame 1: two ordered children
    { MessageRef io = GetMessageFromPool(PR_COMMAND_INSERTORDEREDDATA); (void)io()->AddString(PR_NAME_KEYS, "idx"); for (int j = 0; j < 2; j++) (void)io()->AddMessage("", Payload(8, "i", j)); S.msgs.push_back(io); d.push_back("INSERTORDERED idx x2"); }
    // frame 2: two subscriptions
    { std::vector<std::string> two = (R(3) == 0) ? std::vector<std::string>() : PickSubs(kLeaverSubs, NEL(kLeaverSubs), 2); if (two.size() < 2) { two.clear(); two.push_back("/*/*/*"); two.push_back("b"); }
-     MessageRef sp = GetMessageFromPool(PR_COMMAND_SETPARAMETERS); for (size_t j = 0; j < two.size(); j++) { (void)sp()->AddBool(("SUBSCRIBE:" + two[j]).c_str(), true); cur.push_back(two[j]); }
+     MessageRef sp = GetMessageFromPool(PR_COMMAND_SETPARAMETERS); std::string dd = "SUBSCRIBE";
+     for (size_t j = 0; j < two.size(); j++) { FilterSpec f; if (R(2)) f = RandomFilter(); PutSub(*sp(), two[j], f, "w"); cur.push_back(two[j]); if (f.kind) curF[two[j]] = f; dd += (j ? " + " : " ") + two[j] + ShowFilter(f, "w"); }
      if (R(3) == 0) (void)sp()->AddBool(PR_NAME_SUBSCRIBE_QUIETLY, true); if (R(4) == 0) (void)sp()->AddBool(PR_NAME_REFLECT_TO_SELF, true);
-     S.msgs.push_back(sp); d.push_back("SUBSCRIBE " + two[0] + " + " + two[1]); }
+     S.msgs.push_back(sp); d.push_back(dd); }
    // subsAfter[n] = the leaver's subscriptions after n complete frames (index 0 = nothing received yet)
-   S.subsAfter.clear(); for (int j = 0; j < 3; j++) S.subsAfter.push_back(std::vector<std::string>()); S.subsAfter.push_back(cur);
+   // in half of the streams the subscriptions come first (then far more prefixes end with the leaver subscribed)
+   const bool subFirst = R(2); if (subFirst) { std::rotate(S.msgs.begin(), S.msgs.begin() + 2, S.msgs.end()); std::rotate(d.begin(), d.begin() + 2, d.end()); }
+   S.ioFrame = subFirst ? 2 : 1;
+   S.subsAfter.clear(); S.subsAfter.push_back(std::vector<std::string>()); S.filtAfter.push_back(std::map<std::string, FilterSpec>());
+   for (int j = 1; j <= 3; j++) { const bool have = subFirst || j == 3; S.subsAfter.push_back(have ? cur : std::vector<std::string>()); S.filtAfter.push_back(have ? curF : std::map<std::string, FilterSpec>()); }
    // further commands until the stream is 470..700 bytes long
    const uint32 wantExtra = R(4); uint32 extra = 0; size_t len = FrameStream(S.msgs).size();
    for (int tries = 0; tries < 40 && (extra < wantExtra || len < 470); tries++) {
-      MessageRef m; std::vector<std::string> next = cur; std::string what;
-      switch (R(8)) {
+      MessageRef m; std::vector<std::string> next = cur; std::map<std::string, FilterSpec> nextF = curF; std::string what;
+      switch (R(10)) {
       case 0: m = GetMessageFromPool(PR_COMMAND_REMOVEDATA); { const char * kk[] = {"a", "idx/*", "*", "idx/I0"}; const char * key = kk[R(4)]; (void)m()->AddString(PR_NAME_KEYS, key); what = std::string("REMOVEDATA ") + key; } break;
       case 1: m = GetMessageFromPool(PR_COMMAND_GETDATA); (void)m()->AddString(PR_NAME_KEYS, "/*/*/*"); what = "GETDATA /*/*/*"; break;
       case 2: m = GetMessageFromPool(PR_COMMAND_SETDATA); { const char * p = R(2) ? "c" : "a/x/deep"; (void)m()->AddMessage(p, Payload(9, "v", (int32)R(100))); what = std::string("SETDATA ") + p; } break;
       case 3: m = GetMessageFromPool(PR_COMMAND_REORDERDATA); (void)m()->AddString("idx/I1", "I0"); what = "REORDER idx/I1<I0"; break;
-      case 4: { std::vector<std::string> one = PickSubs(kLeaverSubs, NEL(kLeaverSubs), 1, cur); if (one.empty()) continue; m = GetMessageFromPool(PR_COMMAND_SETPARAMETERS); (void)m()->AddBool(("SUBSCRIBE:" + one[0]).c_str(), true); next.push_back(one[0]); what = "SUBSCRIBE " + one[0]; } break;
-      case 5: { if (cur.empty()) continue; const size_t wh = R((uint32)cur.size()); m = GetMessageFromPool(PR_COMMAND_REMOVEPARAMETERS); (void)m()->AddString(PR_NAME_KEYS, EscapeRegexTokens(String(("SUBSCRIBE:" + cur[wh]).c_str()))); what = "UNSUBSCRIBE " + cur[wh]; next.erase(next.begin() + wh); } break;
+      case 4: { std::vector<std::string> one = PickSubs(kLeaverSubs, NEL(kLeaverSubs), 1, cur); if (one.empty()) continue; m = GetMessageFromPool(PR_COMMAND_SETPARAMETERS); FilterSpec f; if (R(2)) f = RandomFilter(); PutSub(*m(), one[0], f, "w"); next.push_back(one[0]); if (f.kind) nextF[one[0]] = f; what = "SUBSCRIBE " + one[0] + ShowFilter(f, "w"); } break;
+      case 5: { if (cur.empty()) continue; const size_t wh = R((uint32)cur.size()); m = GetMessageFromPool(PR_COMMAND_REMOVEPARAMETERS); (void)m()->AddString(PR_NAME_KEYS, EscapeRegexTokens(String(("SUBSCRIBE:" + cur[wh]).c_str()))); what = "UNSUBSCRIBE " + cur[wh]; nextF.erase(cur[wh]); next.erase(next.begin() + wh); } break;
       case 6: m = GetMessageFromPool(PR_COMMAND_PING); (void)m()->AddInt32("n", (int32)R(1000)); what = "PING"; break;
+      case 7: case 8: { if (cur.empty()) continue; const std::string & pat = cur[R((uint32)cur.size())];        // same subscription again with another filter (or none): the path set stays
+                 FilterSpec f; if (!curF.count(pat) || R(3)) f = RandomFilter(); m = GetMessageFromPool(PR_COMMAND_SETPARAMETERS); PutSub(*m(), pat, f, "w");
+                 if (f.kind) nextF[pat] = f; else nextF.erase(pat); what = "REFILTER " + pat + ShowFilter(f, "w"); } break;
       default: { std::vector<std::string> one = PickSubs(kLeaverSubs, NEL(kLeaverSubs), 1, cur); if (one.empty()) continue; m = GetMessageFromPool(PR_COMMAND_BATCH);
                  MessageRef a = GetMessageFromPool(PR_COMMAND_SETDATA); (void)a()->AddMessage("d", Payload(9, "v", (int32)R(100))); (void)m()->AddMessage(PR_NAME_KEYS, a);
-                 MessageRef b = GetMessageFromPool(PR_COMMAND_SETPARAMETERS); (void)b()->AddBool(("SUBSCRIBE:" + one[0]).c_str(), true); (void)m()->AddMessage(PR_NAME_KEYS, b); next.push_back(one[0]); what = "BATCH{SETDATA d, SUBSCRIBE " + one[0] + "}"; } break;
+                 MessageRef b = GetMessageFromPool(PR_COMMAND_SETPARAMETERS); FilterSpec f; if (R(2)) f = RandomFilter(); PutSub(*b(), one[0], f, "w"); (void)m()->AddMessage(PR_NAME_KEYS, b); next.push_back(one[0]); if (f.kind) nextF[one[0]] = f; what = "BATCH{SETDATA d, SUBSCRIBE " + one[0] + ShowFilter(f, "w") + "}"; } break;
       }
       const size_t add = Frame(*m()).size(); if (len + add > 700) continue;
-      S.msgs.push_back(m); cur = next; S.subsAfter.push_back(cur); len += add; extra++; d.push_back(what);
+      S.msgs.push_back(m); cur = next; curF = nextF; S.subsAfter.push_back(cur); S.filtAfter.push_back(curF); len += add; extra++; d.push_back(what);
    }
    S.bytes = FrameStream(S.msgs, &S.starts);
    if (S.bytes.size() < 470 || S.bytes.size() > 700) Abort(vh::fmt("generated stream has %zu bytes, wanted 470..700", S.bytes.size()));
-   if (S.subsAfter.size() != S.msgs.size() + 1) Abort("subscription model out of step with the frames");
+   if (S.subsAfter.size() != S.msgs.size() + 1 || S.filtAfter.size() != S.subsAfter.size()) Abort("subscription model out of step with the frames");
    S.desc = vh::fmt("stream %ld (%zu bytes, %zu frames, %zu witnesses): ", s, S.bytes.size(), S.msgs.size(), S.wit.size()) + Join(d, " | ", 20);
    g = keep;
 }
@@ -278,8 +313,8 @@ static bool RunCut(const StreamSpec & S, size_t cut, int closeStyle, const std::
    std::vector<Client *> wit; std::map<uint32, std::vector<std::string> > subs; subs[B.insp->GetSessionID()] = std::vector<std::string>();
    for (size_t i = 0; i < S.wit.size(); i++) {
       const WitnessSpec & ws = S.wit[i]; Options o; o.reflectToSelf = ws.reflect; o.handshake = false; Client * w = B.AddClient(o); wit.push_back(w);
-      MessageRef sd = GetMessageFromPool(PR_COMMAND_SETDATA); (void)sd()->AddMessage("mine", Payload(7, "w", (int32)i));
-      if (ws.nodeA) (void)sd()->AddMessage("a", Payload(7, "w", 1)); if (ws.nodeB) (void)sd()->AddMessage("b", Payload(7, "w", 2)); if (ws.nodeAX) (void)sd()->AddMessage("a/x", Payload(7, "w", 3)); if (ws.idx) (void)sd()->AddMessage("idx", Payload(7, "w", 4));
+      MessageRef sd = GetMessageFromPool(PR_COMMAND_SETDATA); (void)sd()->AddMessage("mine", Payload2(7, "w", (int32)i));
+      if (ws.nodeA) (void)sd()->AddMessage("a", Payload2(7, "w", 1)); if (ws.nodeB) (void)sd()->AddMessage("b", Payload2(7, "w", 2)); if (ws.nodeAX) (void)sd()->AddMessage("a/x", Payload2(7, "w", 3)); if (ws.idx) (void)sd()->AddMessage("idx", Payload2(7, "w", 4));
       w->Send(sd);
       if (ws.idx) { MessageRef io = GetMessageFromPool(PR_COMMAND_INSERTORDEREDDATA); (void)io()->AddString(PR_NAME_KEYS, "idx"); for (int j = 0; j < 2; j++) (void)io()->AddMessage("", Payload(8, "i", j)); w->Send(io); }
       MessageRef sp = GetMessageFromPool(PR_COMMAND_SETPARAMETERS); for (size_t j = 0; j < ws.subs.size(); j++) (void)sp()->AddBool(("SUBSCRIBE:" + ws.subs[j]).c_str(), true);
@@ -303,11 +338,20 @@ static bool RunCut(const StreamSpec & S, size_t cut, int closeStyle, const std::
    const long nodesBefore = CountUnder(pre, L->root, true);
    if (!bad) { if (nodesBefore < 1) Abort("trace oracle self-test: the leaver's session node is not visible before the cut"); if (doStats) vh::stat("selftest_trace_oracle_fired"); }
    const long marksBefore = MarksOf(pre, L->id);
-   if (doStats && complete == 2) CheckFreshIndexNames(pre, L->root + "/idx", "leaver");
+   if (doStats && complete == S.ioFrame + 1) CheckFreshIndexNames(pre, L->root + "/idx", "leaver");
    if (!bad) { std::map<uint32, std::vector<std::string> > with = subs; with[L->id] = S.subsAfter[complete]; std::string inv = CheckSubscriberInvariant(pre, with); if (!inv.empty()) CUTFAIL("precut_subscriber_table", vh::fmt("with the leaver connected (%zu complete frames): ", complete) + inv); }
    long shown = 0; for (size_t i = 0; i < wit.size(); i++) for (std::map<std::string, std::string>::const_iterator it = wit[i]->mirror.begin(); it != wit[i]->mirror.end(); ++it) if (Under(it->first, L->root)) shown++;
    std::vector<long> noticesBefore; for (size_t i = 0; i < wit.size(); i++) noticesBefore.push_back(wit[i]->removalNotices);
    int cachedBefore = B.insp->CachedTablesWithKey(L->id);
+   // how many remaining nodes match the path of a filtered subscription of the leaver but fail its filter (marked all the same), and how many
+   // of those are covered by no other subscription of the leaver that is unfiltered or whose filter the node passes
+   long filteredSubs = (long)S.filtAfter[complete].size(), failNodes = 0, failUncovered = 0;
+   if (filteredSubs) for (TreeSnap::const_iterator it = pre.begin(); it != pre.end(); ++it) {
+      if (Under(it->first, L->root)) continue;
+      bool fails = false, covered = false; const std::vector<std::string> & ls = S.subsAfter[complete];
+      for (size_t i = 0; i < ls.size(); i++) { if (!RefPathMatch(ls[i], it->first)) continue; std::map<std::string, FilterSpec>::const_iterator f = S.filtAfter[complete].find(ls[i]); if (f != S.filtAfter[complete].end() && !FilterPasses(f->second, it->second.payload, "w")) fails = true; else covered = true; }
+      if (fails) { failNodes++; if (!covered) failUncovered++; }
+   }
 
    // ---- the cut
    if (closeStyle == 1) L->HalfClose(); else L->Close();
@@ -338,6 +382,8 @@ static bool RunCut(const StreamSpec & S, size_t cut, int closeStyle, const std::
       if (cut == 0) vh::stat("streams"); if (cut == S.bytes.size()) vh::stat("streams_completed");
       vh::stat("leaver_nodes_before_cut", nodesBefore); if (nodesBefore > 1) vh::stat("cuts_with_leaver_nodes"); if (marksBefore) vh::stat("cuts_with_leaver_marks_on_nodes"); vh::stat("leaver_marks_before_cut", marksBefore);
       if (cachedBefore > 0) vh::stat("cuts_with_leaver_in_cached_tables");
+      vh::stat("cut_leaver_filtered_subscriptions", filteredSubs); if (filteredSubs) vh::stat("cuts_with_leaver_filtered_subscriptions");
+      vh::stat("cut_nodes_matching_path_but_failing_filter", failNodes); vh::stat("cut_nodes_failing_filter_not_otherwise_covered", failUncovered); if (failUncovered) vh::stat("cuts_with_marked_node_failing_every_leaver_filter");
       vh::stat("paths_shown_to_witnesses", shown); if (shown) vh::stat("cuts_with_witness_shown_leaver_paths");
       long told = 0; for (size_t i = 0; i < wit.size(); i++) told += wit[i]->removalNotices - noticesBefore[i]; vh::stat("removal_notices_after_cut", told);
       vh::statmax("max_complete_frames", (long)complete); vh::statmax("max_stream_bytes", (long)S.bytes.size());
@@ -439,6 +485,23 @@ static void RegressDeparture()
    for (size_t i = 0; i < S.starts.size(); i++) for (int d = -1; d <= 9; d += (d < 1 ? 1 : 8)) { long c = (long)S.starts[i] + d; if (c >= 0 && c <= (long)S.bytes.size()) cuts.insert((size_t)c); }
    g = vh::Rng(99);
    for (std::set<size_t>::const_iterator it = cuts.begin(); it != cuts.end(); ++it) for (int style = 0; style < 2; style++) { RunCut(S, *it, style, "regress|cut", false); vh::stat("regress_cuts"); }
+   // fixed witnesses with content filters on the leaver's subscriptions (marks are by path; teardown must not consult the filter):
+   // the witness owns mine{w=0,s=y} a{w=1,s=x} b{w=2,s=y}; the leaver subscribes with a filter that some of them fail
+   { struct Step { const char * pat; int kind; int32 iv; const char * sv; };
+     static const Step scripts[][3] = { { {"/*/*/*", 1, 1, ""}, {NULL, 0, 0, ""}, {NULL, 0, 0, ""} },                  // /*/*/*[w==1]: mine and b fail
+                                        { {"/*/*/*", 1, 1, ""}, {"/*/*/*", 2, 0, "x"}, {NULL, 0, 0, ""} },             // filter changed before the cut
+                                        { {"(a|b)", 0, 0, ""}, {"/*/*/*", 3, 2, ""}, {NULL, 0, 0, ""} },               // overlapped by an unfiltered subscription
+                                        { {"b", 2, 0, "x"}, {"/*/*", 1, 7, ""}, {"b", 0, 0, ""} } };                    // b[s==x] fails on every b; session level filtered; filter dropped again
+     for (size_t sc = 0; sc < NEL(scripts); sc++) {
+        StreamSpec F; F.index = 1000 + (long)sc; WitnessSpec w; w.subs.push_back("/*/*/*"); w.reflect = false; w.maxItems = 0; w.nodeA = w.nodeB = true; w.nodeAX = w.idx = false; F.wit.push_back(w);
+        std::vector<std::string> cur; std::map<std::string, FilterSpec> curF; F.subsAfter.push_back(cur); F.filtAfter.push_back(curF); std::string dd;
+        { MessageRef sd = GetMessageFromPool(PR_COMMAND_SETDATA); (void)sd()->AddMessage("a", Payload(7, "v", 5)); F.msgs.push_back(sd); F.subsAfter.push_back(cur); F.filtAfter.push_back(curF); }
+        for (int st = 0; st < 3 && scripts[sc][st].pat; st++) { const Step & x = scripts[sc][st]; FilterSpec f; f.kind = x.kind; f.iv = x.iv; f.sv = x.sv;
+           MessageRef sp = GetMessageFromPool(PR_COMMAND_SETPARAMETERS); PutSub(*sp(), x.pat, f, "w"); F.msgs.push_back(sp);
+           if (std::find(cur.begin(), cur.end(), std::string(x.pat)) == cur.end()) cur.push_back(x.pat); if (f.kind) curF[x.pat] = f; else curF.erase(x.pat);
+           F.subsAfter.push_back(cur); F.filtAfter.push_back(curF); dd += std::string(" | SUBSCRIBE ") + x.pat + ShowFilter(f, "w"); }
+        F.bytes = FrameStream(F.msgs, &F.starts); F.desc = vh::fmt("fixed filtered stream %zu:", sc) + dd;
+        for (size_t fi = 2; fi < F.starts.size(); fi++) for (int style = 0; style < 2; style++) { RunCut(F, F.starts[fi], style, "regress|cut", false); if (fi + 1 < F.starts.size()) RunCut(F, F.starts[fi] + 11, style, "regress|cut", false); vh::stat("regress_filtered_cuts"); } } }
    // the departure oracle must fire when the session has NOT departed: run the post-cut checks' core on a connected leaver
    { Bench B; Client * w = B.AddClient(); MessageRef sp = GetMessageFromPool(PR_COMMAND_SETPARAMETERS); (void)sp()->AddBool("SUBSCRIBE:/*/*/*", true); w->Send(sp); MessageRef sd0 = GetMessageFromPool(PR_COMMAND_SETDATA); (void)sd0()->AddMessage("b", Payload(1, "v", 1)); w->Send(sd0); B.Settle();
      RawPeer * L = B.AddRaw(); B.Settle(); size_t off = 0; while (off < S.bytes.size()) { off += L->Write(S.bytes.data() + off, S.bytes.size() - off); B.Settle(2); } B.Settle();
